@@ -424,6 +424,8 @@ func TestVerifC05(t *testing.T) {
 	c05Bubble(t, func() { c05DialPeerSendCancel(out) })
 	c05Bubble(t, func() { c05DialPeerDnsaddrTwice(out) })
 	c05Bubble(t, func() { c05DialPeerFallbackTransport(out) })
+	c05Bubble(t, func() { c05DialPeerWrongPeerConn(out) })
+	c05Bubble(t, func() { c05DialPeerBackoffExpires(out) })
 	for i := 0; i < nd; i++ {
 		size := 6 + r.Intn(30)
 		c05Bubble(t, func() { c05DialPeerRandom(out, r, size) })
